@@ -160,9 +160,31 @@ def _desugar_write(text, log, unit_id):
     return text
 
 
+def _desugar_for_next(text, header_re, log, unit_id):
+    """R5: `for PAT in EXPR { BODY }`  =>  `{ let mut iter_ = (EXPR).into_iter(); loop { match iter_.next() { Some(PAT) => { BODY }, None => break, } } }`
+    -- the definition of `for`; used where the iterator is purl's own type, so that its `next` is a verified callee."""
+    m = re.search(header_re, text, re.S)
+    if not m:
+        raise ExtractError('%s: R5 for-loop header /%s/ not found' % (unit_id, header_re))
+    hm = re.match(r'for\s+(.*?)\s+in\s+(.*)$', m.group(0), re.S)
+    pat, expr = hm.group(1), hm.group(2).strip()
+    masked = rsparse.mask(text)
+    o = masked.index('{', m.end())
+    c = rsparse.match_brace(masked, o)
+    body = text[o:c + 1]
+    new = ('{ let mut iter_ = (%s).into_iter();\n loop {\n match iter_.next() { Some(%s) => %s, None => break, }\n } }'
+           % (expr, pat, body))
+    log.append(dict(unit=unit_id, rule='R5', where='body', pattern='for PAT in EXPR { BODY }',
+                    replacement='explicit loop over into_iter() / next()', matches=[m.group(0)]))
+    return text[:m.start()] + new + text[c + 1:]
+
+
 def _apply_rewrites(text, rewrites, log, unit_id, where):
     for rw in rewrites:
         rule, pat, repl = rw[0], rw[1], rw[2]
+        if pat == '@for_next':
+            text = _desugar_for_next(text, repl, log, unit_id)
+            continue
         if pat == '@write':
             text = _desugar_write(text, log, unit_id)
             continue
@@ -272,7 +294,18 @@ def build_unit(unit, log):
             # R0: field visibility widened to pub (specifications mention the fields)
             mm = re.match(r'(pub struct [^({]*)\((.*)\);\s*$', text, re.S)
             if mm:
-                fields = [f.strip() for f in mm.group(2).split(',') if f.strip()]
+                fields, depth, cur = [], 0, ''
+                for ch in mm.group(2):
+                    if ch in '(<[':
+                        depth += 1
+                    elif ch in ')>]':
+                        depth -= 1
+                    if ch == ',' and depth == 0:
+                        fields.append(cur.strip()); cur = ''
+                    else:
+                        cur += ch
+                if cur.strip():
+                    fields.append(cur.strip())
                 text = mm.group(1) + '(' + ', '.join(f if f.startswith('pub') else 'pub ' + f for f in fields) + ');'
             else:
                 text = re.sub(r'(?m)^(\s*)(?!pub\b)(\w+\s*:)', r'\1pub \2', text)
